@@ -98,7 +98,8 @@ R_NAMES = ["dict", "dict success=False", "tuple", "None", "ApiError", "Transport
 class StubRunner:
     """calls on_request_start/on_request_end on the client like the real transport does, then returns / raises"""
 
-    def __init__(self, es, outcome_fn, wire_requests=1):
+    def __init__(self, es, outcome_fn, wire_requests=1, nested=False):
+        self.nested = nested  # issue the wire requests (and fail) inside a nested request context, as composite sub-requests do
         self.es = es
         self.outcome_fn = outcome_fn
         self.calls = 0
@@ -114,6 +115,12 @@ class StubRunner:
         return False
 
     async def __call__(self, es, params):
+        if self.nested:
+            with es["default"].new_request_context():
+                return await self._call(es, params)
+        return await self._call(es, params)
+
+    async def _call(self, es, params):
         i = self.calls
         self.calls += 1
         c = es["default"]
